@@ -7,7 +7,7 @@
 //          (63..5000) or is random, and it is a run of one ordinary character, a cycling alphabet, a run of one character
 //          that needs escaping, an ordinary run with one special character, or alternating blocks.  A test may also fail
 //          by a real STRCMP_EQUAL of two long strings (the message built by the framework holds both operands).
-//          Group names are never empty (DESIGN A.5).
+//          Group names are never empty (DESIGN A.5); one TEST name in twelve is the empty string.
 //          The registry is run 1..3 times against the SAME output object with a fresh TestResult per pass (what
 //          CommandLineTestRunner does for -rN), the order optionally reversed or re-shuffled before a pass; one case in three
 //          goes through a real CommandLineTestRunner subclass with argv "-oteamcity [-rN] [-ri] [-b] [-sSEED]".
@@ -182,7 +182,7 @@ CaseM decode(Reader& r) {
         for (uint32_t t = 0; t < nt; t++) {
             TestM tm;
             tm.group = gname;
-            tm.name = gen_name(r, 6);
+            tm.name = r.below(12) == 11 ? std::string() : gen_name(r, 6);   // TEST(group, ) / setTestName(""): an empty test name is expressible
             tm.file = r.below(4) == 3 ? gen_name(r, 6) : groupFile;
             tm.line = r.pick(LINES);
             tm.ignored = r.below(6) == 5;
@@ -417,6 +417,12 @@ int run_and_judge(const CaseM& c, bool useKnown, bool& nontrivial) {
     std::vector<Event> ev;
     for (auto& pass : announced) expected_events(c, pass, ev, suites);
     verif::cls(sfmt("passes:%u%s", c.passes, c.viaRunner ? "-via-CommandLineTestRunner" : "").c_str());
+    for (auto& pass : announced)
+        for (size_t i = 0; i < pass.size(); i++) if (pass[i]->name.empty()) {
+            if (i == 0) verif::cls("empty-test-name:first-of-pass");
+            if (i + 1 == pass.size()) verif::cls("empty-test-name:last-of-pass");
+            if ((i == 0 || pass[i - 1]->group != pass[i]->group) && (i + 1 == pass.size() || pass[i + 1]->group != pass[i]->group)) verif::cls("empty-test-name:only-test-of-suite");
+        }
     if (c.passes > 1) {
         bool sameEdge = false;
         for (size_t p = 0; p + 1 < announced.size(); p++) if (!announced[p].empty() && announced[p].back()->group == announced[p + 1].front()->group) sameEdge = true;
@@ -428,6 +434,11 @@ int run_and_judge(const CaseM& c, bool useKnown, bool& nontrivial) {
     for (auto& t : c.tests) {
         if (has_any(t.group, SPECIAL) || has_any(t.name, SPECIAL) || has_any(t.file, SPECIAL)) special = true;
         verif::cls(t.ignored ? (c.runIgnored ? "test:ignored-but-run" : "test:ignored") : "test:normal");
+        if (t.name.empty()) {
+            verif::cls("empty-test-name");
+            if (t.ignored) verif::cls("empty-test-name:IGNORE_TEST");
+            if (!t.body.empty() || !t.teardown.empty()) verif::cls("empty-test-name:failing");
+        }
     }
     size_t nfailed = 0;
     for (auto& e : ev) if (e.kind == Event::TestFailed) {
